@@ -34,12 +34,18 @@ def impl(line):
         ring = [_coord(*q) for q in planar._pts(a[2:])]
         return tf(GeoPolygon._point_in_polygon(_coord(a[0], a[1]), ring, include_boundary=(op == 'ringb')))
     if op == 'in':
-        s = planar.to_impl(planar.parse_shape(a[2:]))
+        s, disturb = planar.to_impl_live(planar.parse_shape(a[2:]), line)
         c = _coord(a[0], a[1])
         r1 = s.contains_coordinate(c)
         r2 = c in s
         if r1 != r2:
             return f'contains_coordinate={r1} but `in`={r2}'
+        # observe - mutate - observe: nothing the caller does to its own containers afterwards, and no earlier query,
+        # may change the answer
+        what = disturb()
+        r3 = s.contains_coordinate(_coord(a[0], a[1]))
+        if r3 != r1:
+            return f'UNSTABLE {tf(r1)} then {tf(r3)} after {what}'
         return tf(r1)
     raise ValueError(op)
 
